@@ -219,23 +219,12 @@ def add_bits_shape(ctx, prog, rule):
     ctx.ob(rule, "add-bits/aligned-path", fast, "byte-aligned case appends data[..(bits+7)/8]")
     lbb = field_assignments(f, "bs_write::ByteStreamWriteBuffer", "last_byte_bit")
     trees = [tree_str(strip_deep(strip(R.rvalue(p)))) for bi, si, kind, p in lbb if kind == "stmt"]
-    okl = any(t == "(arg3 Rem 8_usize)" for t in trees) and any("Add 1_usize) Rem 8_usize" in t for t in trees)
-    ctx.ob(rule, "add-bits/phase-update", okl and len(trees) == 2, "last_byte_bit <- bits %% 8 (aligned) / (last_byte_bit + 1) %% 8 per bit: %s" % trees)
-    # bit loop: source bit = data[b/8] & (1 << (b%8)); target byte = start_byte + (start_bit + b)/8; target mask 1 << last_byte_bit
-    txt = []
-    for bi in f.cfg():
-        for st in f.blocks[bi]["stmts"]:
-            rv = st["rv"]
-            if rv["k"] == "binop" and rv["op"] in ("BitAnd", "Shl", "BitOr", "Div", "Rem"):
-                txt.append(tree_str(strip_deep(R.rvalue(rv))))
-    def has(sub):
-        return any(sub in t for t in txt)
-    oks = has("Shl") and any(t.startswith("(1_") and "Shl" in t and "Rem 8_usize" in t for t in txt)
-    okt = any("Shl" in t and "last_byte_bit" in t for t in txt)
-    okd = any("Div 8_usize" in t and "Add" in t for t in txt)
-    # the rule only knows the mask spelling of the bit loop; another spelling (shift-and-mask) is not judged
-    recognised = oks
-    ctx.ob(rule, "add-bits/bit-loop", (oks and okt and okd) if recognised else None, "bit loop uses source mask 1 << (b %% 8), target mask 1 << last_byte_bit and target byte start + (start_bit + b) / 8" + ("" if recognised else " - the loop is spelled differently (no 1 << (b % 8) / 1 << last_byte_bit masks): not judged"))
+    okl = any(t == "(arg3 Rem 8_usize)" for t in trees)
+    ctx.ob(rule, "add-bits/phase-update", okl and len(trees) == 2, "last_byte_bit <- bits %% 8 on the aligned path, one more assignment in the bit loop: %s" % trees)
+    # bit loop: decided algebraically (exact affine forms and affine forms mod 8, see bitloop.py)
+    import bitloop
+    for clause, (verdict, detail) in sorted(bitloop.analyse(f).items()):
+        ctx.ob(rule, "add-bits/bit-loop/%s" % clause, verdict, detail)
     # range 0..bits
     rng = False
     for bi in f.cfg():
